@@ -4,10 +4,12 @@ from __future__ import annotations
 
 import ast
 
+from engine import memo
 from engine.core import AnalysisError, Repo, norm, walk_no_nested
 from engine.flow import enum_paths, path_calls, path_facts
 from engine.mutate import Mutant
 from engine.report import Result
+from rules import memo_rules
 
 TECHNIQUE = "cache-coherence effect analysis: inventory of memo layers derived from the source, invalidation-completeness path rule over the registry mutators, cache-key dependency rule for lru_cache'd functions, immutability (who-assigns) rule for Unit attributes"
 LEVEL_TEXT = """Static, covering all histories by covering all writers: (R1) the memo layers that can outlive a registry edit
@@ -41,20 +43,10 @@ def check(repo: Repo) -> Result:
 
 def inventory(repo, res):
     r1 = res.rule("C12-R1", "memo layers and their writers, derived from the source", floor=5)
-    # writers of _unit_object_cache in the whole package
-    sites = []
-    for mod in repo.mods(only_anchor=False):
-        for q, fns in mod.funcs.items():
-            for f in fns:
-                for n in walk_no_nested(f.node):
-                    if isinstance(n, ast.Assign):
-                        for t in n.targets:
-                            if isinstance(t, ast.Subscript) and norm(t.value).endswith("._unit_object_cache"):
-                                sites.append((mod.rel, q, norm(n)))
-                            if isinstance(t, ast.Attribute) and t.attr == "_unit_object_cache":
-                                sites.append((mod.rel, q, norm(n)))
-    want = {(UO, "Unit.__new__", "registry._unit_object_cache[unit_cache_key] = obj"), (REG, "UnitRegistry.__init__", "self._unit_object_cache = {}")}
-    res.check(set(sites) == want, "unit-cache-writers", UO, "the unit-string cache may only be filled by Unit.__new__ and created empty by the registry", sorted(want), sorted(sites), rid=r1)
+    # writers of the per-registry unit-string cache, text + explicit values, process-global call-time state
+    for gen in (memo_rules.unit_cache_writers(repo), memo_rules.explicit_values(repo), memo_rules.calltime_globals(repo)):
+        for key, ok, where, msg, exp, found in gen:
+            res.check(ok, key, where, msg, exp, found, rid=r1)
     new = repo.mod(UO).func("Unit.__new__")
     res.fn(new)
     keydef = [norm(n.value) for n in walk_no_nested(new.node) if isinstance(n, ast.Assign) and norm(n.targets[0]) == "unit_cache_key"]
@@ -135,19 +127,17 @@ FORBIDDEN_GLOBALS = {"default_unit_registry", "default_unit_symbol_lut"}
 
 
 def cache_keys(repo, res):
-    r3 = res.rule("C12-R3", "lru_cache'd functions read no process-global registry state; Unit hashes by registry content id", floor=10)
-    for mod in repo.mods():
-        for q, fns in mod.funcs.items():
-            for f in fns:
-                if not any("lru_cache" in norm(d) for d in f.decorators()):
-                    continue
-                res.fn(f)
-                names = {n.id for n in walk_no_nested(f.node) if isinstance(n, ast.Name) and isinstance(n.ctx, ast.Load)}
-                bad = names & FORBIDDEN_GLOBALS
-                res.check(not bad, f"{mod.rel.split('/')[-1]}:{q}", f.where(), f"cached function {q} reads global registry state {sorted(bad)} that is not part of its cache key", rid=r3)
+    r3 = res.rule("C12-R3", "lru_cache keys cover what the cached value depends on: no global registry state, no registry / unit system held by identity", floor=14)
+    for f in memo.cached_functions(repo):
+        res.fn(f)
+        names = {n.id for n in walk_no_nested(f.node) if isinstance(n, ast.Name) and isinstance(n.ctx, ast.Load)}
+        bad = names & FORBIDDEN_GLOBALS
+        res.check(not bad, f"{f.mod.rel.split('/')[-1]}:{f.qualname}", f.where(), f"cached function {f.qualname} reads global registry state {sorted(bad)} that is not part of its cache key", rid=r3)
+    for key, ok, where, msg, exp, found in memo_rules.cached_identity_params(repo):
+        res.check(ok, key, where, msg, exp, found, rid=r3)
     h = repo.mod(UO).func("Unit.__hash__")
     res.check("self.registry.unit_system_id" in norm(h.node), "unit-hash", h.where(), "Unit.__hash__ must include the registry's content id", rid=r3)
-    res.note("not covered: _check_em_conversion falls back to unit_system_registry['mks'] (module-level dict) and reads unit_system.units_map")
+    res.note("not covered: _check_em_conversion falls back to unit_system_registry['mks'] (module-level dict of named systems)")
 
 
 def immutability(repo, res):
@@ -197,5 +187,10 @@ MUTANTS = [
     Mutant("second-cache-writer", REG, "UnitRegistry.__getitem__", "        return ret", "        self._unit_object_cache[str(key)] = ret\n        return ret", ("C12-R1",)),
     Mutant("cached-reads-global", ARR, "_preserve_units", "    if unit2 is None or unit1.dimensions is not temperature:", "    if unit2 is None or default_unit_registry is None or unit1.dimensions is not temperature:", ("C12-R3",)),
     Mutant("unit-hash-without-id", UO, "Unit.__hash__", "return int(self.registry.unit_system_id, 16) ^ hash(self.expr)", "return hash(self.expr)", ("C12-R3", "C05-R2")),
+    Mutant("deepcopy-inherits-cache", REG, "UnitRegistry.__deepcopy__", "        return type(self)(\n            add_default_symbols=False, lut=lut, unit_system=self.unit_system\n        )", "        ret = type(self)(\n            add_default_symbols=False, lut=lut, unit_system=self.unit_system\n        )\n        ret._unit_object_cache.update(self._unit_object_cache)\n        return ret", ("C12-R1",)),
+    Mutant("factor-helper-cached", UO, None, "def _create_unit_from_factor(factor, registry):", "@lru_cache(maxsize=128)\ndef _create_unit_from_factor(factor, registry):", ("C12-R3",)),
+    Mutant("copy-from-text", UO, "Unit.copy", "        expr = self.expr\n", "        expr = str(self.expr)\n", ("C12-R1",)),
+    Mutant("setstate-global-memo", ARR, "unyt_array.__setstate__", "        self.units = Unit(unit, registry=registry)", "        _SEEN[unit, frozenset(lut)] = Unit(unit, registry=registry)\n        self.units = _SEEN[unit, frozenset(lut)]", ("C12-R1",), more=[(ARR, None, "NULL_UNIT = Unit()\n", "NULL_UNIT = Unit()\n_SEEN = {}\n", 1)]),
+    Mutant("twin-em-check-registry-alias", ARR, "unyt_array.in_units", "self.units, units, registry=self.units.registry", "self.units, to_unit=units, registry=self.units.registry", (), benign=True),
     Mutant("unit-value-rewritten", UO, "Unit.as_coeff_unit", "        coeff = float(coeff)\n", "        coeff = float(coeff)\n        self.base_value = self.base_value / coeff\n", ("C12-R4",)),
 ]
